@@ -37,6 +37,7 @@ class NetSim:
         self.results = []
         self.last_activity = 0
         self.t_limit = None
+        self._pkt0, self._pkt_cap = 0, 6000
         for i, nd in enumerate(nodes):
             name = "n%d" % i
             c = sim.Chip(self.air, name)
@@ -172,7 +173,7 @@ class NetSim:
             o, chip, s = self.objs[name], self.chips[name], self.s
             me = s.cur
             while not self.stop:
-                if self.t_limit is not None and s.now > self.t_limit:
+                if (self.t_limit is not None and s.now > self.t_limit) or len(self.air.log) - self._pkt0 > self._pkt_cap:
                     # the network never becomes quiet (e.g. a frame bounces between two nodes for ever): an observation, not a
                     # simulation that runs until the memory is full
                     self.ev.append(dict(k="hang", n=name, job=-3, t=s.now // 1000, exc="livelock"))
@@ -218,6 +219,7 @@ class NetSim:
                         for nm in self.objs:   # ("hold": the applications have not read yet when this job starts)
                             self.drain(nm, force=True)
                     me.deadline = s.now + job.get("budget_ms", 4000) * 1_000_000
+                    self._pkt0 = len(self.air.log)          # (a single job never needs thousands of packets)
                     try:
                         job["fn"](self, name, job)
                     except sim.WatchdogExpired:
@@ -260,6 +262,8 @@ class NetSim:
         self.jobs = jobs
         t0 = self.s.boot_t          # script times are relative to the start of the run
         last_script = max([at for v in (scripts or {}).values() for (at, _) in v] + [0])
+        self._pkt0 = len(self.air.log)
+        self._pkt_cap = 6000 * (1 + sum(len(v) for v in (scripts or {}).values()))
         self.t_limit = t0 + last_script + (60 + 5 * len(jobs)) * 1_000_000_000 + sum(j.get("budget_ms", 4000) for j in jobs) * 2_000_000
         self.scripts = {k: sorted([(t0 + at, fn) for (at, fn) in v], key=lambda x: x[0]) for k, v in (scripts or {}).items()}
         for name in self.objs:
